@@ -836,7 +836,9 @@ func (s *Service) runPipeline(ctx context.Context, rp *runnablePipeline) error {
 		<-keepAlive
 		return nil
 	})
-	defer close(keepAlive)
+	var releaseOnce sync.Once
+	releaseKeepAlive := func() { releaseOnce.Do(func() { close(keepAlive) }) }
+	defer releaseKeepAlive()
 
 	// nodesWg is done once all nodes stop running
 	var nodesWg sync.WaitGroup
@@ -1046,6 +1048,16 @@ func (s *Service) runPipeline(ctx context.Context, rp *runnablePipeline) error {
 		}
 		return err
 	})
+	if startErr != nil {
+		// Do not report the failed start before the run it killed has been
+		// wound down and finalized by the cleanup goroutine above. Returning
+		// at once lets the caller act on a run that is still shutting down:
+		// the recovering run's cleanup writes Degraded next, and a Start
+		// admitted on that status builds a second run while the nodes of this
+		// one still hold the connectors.
+		releaseKeepAlive()
+		_ = rp.t.Wait()
+	}
 	return startErr
 }
 
